@@ -107,6 +107,13 @@ def run_case(ctx, case):
                 Fn = np.asarray(d.to_fourier(np.stack([f * (1 + i) for i in range(L)])))[0]
                 fn = np.asarray(d.to_real(np.stack([F * (1 + i) for i in range(L)])))[0]
                 ctx.hook('square_stack')
+            elif lv == levels - 1 and L * 5 <= 2 ** 21:
+                # a LARGE stack (more than 2**16 numbers, a row count that is no multiple of anything convenient): the function
+                # under test is the last row
+                nrows = 2 ** 16 // L + 3 + (lv % 2)
+                Fn = np.asarray(d.to_fourier(np.stack([f * (1 + (i % 3)) for i in range(nrows - 1)] + [f])))[-1]
+                fn = np.asarray(d.to_real(np.stack([F * (1 + (i % 3)) for i in range(nrows - 1)] + [F])))[-1]
+                ctx.hook('large_stack')
             else:
                 Fn = np.asarray(d.to_fourier(np.stack([f, 2 * f, 0 * f])))[0]
                 fn = np.asarray(d.to_real(np.stack([F, -F])))[0]
@@ -114,12 +121,19 @@ def run_case(ctx, case):
             # through the MatrixArray entry points; 'ma_nonspatial' = an array that lost its flag in arithmetic with a density array
             from pyPRISM.core.MatrixArray import MatrixArray
             from pyPRISM.core.Space import Space
-            m1 = MatrixArray(length=L, rank=1, data=np.array(f).reshape(L, 1, 1), space=(Space.Real if api == 'ma_real' else Space.NonSpatial), types=['A'])
+            # rank 1 .. 6: the function under test sits in one (symmetric) pair of a matrix whose other pairs hold multiples of it
+            rk = [1, 1, 2, 3, 5, 6][int(round(w * 1000 + rmax * 10)) % 6]
+            ty = list('ABCDEF')[:rk]
+            wgt = np.fromfunction(lambda i, j: 1.0 + ((i + 1) * (j + 1)) % 4, (rk, rk))
+            a_, b_ = rk - 1, rk // 2
+            wgt[a_, b_] = wgt[b_, a_] = 1.0
+            ctx.count('matrixarray_rank', rk)
+            m1 = MatrixArray(length=L, rank=rk, data=np.array(f)[:, None, None] * wgt[None, :, :], space=(Space.Real if api == 'ma_real' else Space.NonSpatial), types=ty)
             d.MatrixArray_to_fourier(m1)
-            Fn = np.array(m1.data[:, 0, 0])
-            m2 = MatrixArray(length=L, rank=1, data=np.array(F).reshape(L, 1, 1), space=(Space.Fourier if api == 'ma_real' else Space.NonSpatial), types=['A'])
+            Fn = np.array(m1.data[:, a_, b_])
+            m2 = MatrixArray(length=L, rank=rk, data=np.array(F)[:, None, None] * wgt[None, :, :], space=(Space.Fourier if api == 'ma_real' else Space.NonSpatial), types=ty)
             d.MatrixArray_to_real(m2)
-            fn = np.array(m2.data[:, 0, 0])
+            fn = np.array(m2.data[:, b_, a_])
         else:
             Fn = d.to_fourier(f)
             fn = d.to_real(F)
